@@ -8,6 +8,7 @@ import GoSandbox.Model.DriverC15
 import GoSandbox.Model.DriverC08
 import GoSandbox.Model.DriverC04
 import GoSandbox.Model.DriverC06
+import GoSandbox.Model.DriverC01
 
 open GoSandbox
 
@@ -21,6 +22,7 @@ def dispatch (ws : List String) : Option String :=
     else if cmd.startsWith "c08." then Driver.C08.handle ws
     else if cmd.startsWith "c04." then Driver.C04.handle ws
     else if cmd.startsWith "c06." then Driver.C06.handle ws
+    else if cmd.startsWith "c01." then Driver.C01.handle ws
     else if cmd.startsWith "c07." then Driver.C07.handle ws
     else none
 
